@@ -18,8 +18,8 @@
    characteristic equations of each operation ("the addressed element
    changes, all other elements and their order stay"). *)
 From Coq Require Import List ZArith Bool Arith Lia.
-From SC Require Import Base.Res Base.PyList Inst.Heap Inst.ClassTable Inst.Canon Inst.Abs
-  Inst.SpecHelpers Inst.ElemProofs.
+From SC Require Import Base.Res Base.PyList Inst.Heap Inst.ClassTable Inst.Model Inst.Canon Inst.Abs
+  Inst.SpecHelpers Inst.ElemProofs Inst.RefineProofs Inst.CopyProofs Inst.ElemRefine.
 Import ListNotations.
 Open Scope nat_scope.
 
@@ -173,6 +173,47 @@ Theorem C06_hashable_eq : forall ct a b, a_hashable a = true -> a_hashable b = t
   py_eq ct a a = true /\ py_eq ct a b = py_eq ct b a.
 Proof. intros. split; [now apply py_eq_refl_hashable|now apply py_eq_sym_hashable]. Qed.
 
+(* ---------------- refinement of the model ---------------- *)
+(* FULL STATEMENT (kept visible; not proved in this generality): for every
+   collection attribute a, every element helper hp and argument vector h,
+     run_helper ct l hp h s = (Ok (VRef r'), s') ->
+     field (absv (heap s') (VRef r')) a = spec_elem_op-result on field (absv (heap s) (VRef l)) a
+     and every other attribute of r' is abstractly the one of l,
+   with IndexError / KeyError / ValueError exactly when the specification says so.
+
+   PROVED (C06_list_with_item_refines_partial): the executable model refines
+   spec_helper — result state AND error class — for
+     helper     with_<item>(v), with_<item>(v, _index=i), with_<item>(v, _index=i, _insert=True), in place
+     container  a List attribute holding a list of scalars of EVERY length and content
+                (falsy elements, equal elements, any integer index, negative or out of range),
+                element type without spec class, no item preparer, not shared with another attribute
+     receiver   flat instance of an unfrozen class without invalidated_by
+     element    a proper scalar (conforming or not: ValueError is part of the statement)
+   MISSING: update_/transform_/without_<item> and the dict / set families (their
+   extractor/inserter pairs are tied to the implementation by the exhaustive
+   correspondence scope), copy-on-write flag for element helpers (protect = deepcopy
+   of the container: CopyProofs.dc_scalar_obj), spec elements (layer (iv)). *)
+Theorem C06_list_with_item_refines_partial :
+  forall ct h0 l a c d k sp s lc xs ity,
+  nth_error (heap s) l = Some (OInst c d) -> lookup_cls ct c = Some k -> lookup_attr k a = Some sp ->
+  NoDup (map fst d) -> c_frozen k = false -> no_inval k ->
+  a_ty sp = TList ity -> a_prepare_item sp = None -> spec_of_ty_strict ity = None -> ty_depth ity < FUEL ->
+  assoc a d = Some (VRef lc) -> nth_error (heap s) lc = Some (OList xs) -> forallb nonref xs = true ->
+  flat_fields (heap s) d -> (forall b w, In (b, w) d -> b <> a -> w <> VRef lc) ->
+  forall idx v ins,
+  vscalar v = true -> (idx = VMissing \/ exists i, idx = VInt i) ->
+  let h := mkh [v] true true idx ins None None [] None in
+  let ah := mkah [abs0 v] true true (abs0 idx) ins None None [] None in
+  match run_helper ct l (HWithItem a) h s with
+  | (Ok r, s') => r = VRef l /\
+                  spec_helper ct h0 (absv (heap s) (VRef l)) (SWithItem a) ah = SOk (absv (heap s') (VRef l))
+  | (Err e, s') => spec_helper ct h0 (absv (heap s) (VRef l)) (SWithItem a) ah = SErr e /\ heap s' = heap s
+  end.
+Proof.
+  intros ct h0 l a c d k sp s lc xs ity Hl Hc Ha Hd Hfz Hni Hty Hp Hs Hdep Hfld Hlc Hxs Hflat Hsh idx v ins Hv Hi.
+  exact (with_item_list_inplace_refines ct h0 l a c d k sp s lc xs ity Hl Hc Ha Hd Hfz Hni Hty Hp Hs Hdep Hfld Hlc Hxs Hflat Hsh idx v ins Hv Hi).
+Qed.
+
 (* non-vacuity: falsy elements, equal elements at several positions, negative index *)
 Example C06_examples :
   let ct := @nil cls in
@@ -199,4 +240,5 @@ Print Assumptions C06_set_add.
 Print Assumptions C06_set_replace.
 Print Assumptions C06_set_remove.
 Print Assumptions C06_hashable_eq.
+Print Assumptions C06_list_with_item_refines_partial.
 Print Assumptions C06_examples.
